@@ -7,7 +7,11 @@ from analysis import registry, framework, facts as factsmod
 from analysis.mir import Facts
 props = [json.loads(l)["id"] for l in open(os.path.join(V, "properties.jsonl"))]
 bad = 0
-for m in json.load(open(os.path.join(V, "selftest", "index.json"))).get("benign", []):
+variants = json.load(open(os.path.join(V, "selftest", "index.json"))).get("benign", [])
+if len(sys.argv) > 1:
+    # ad-hoc: patch files given on the command line (absolute paths, or relative to /verif)
+    variants = [{"id": os.path.basename(a), "patch": os.path.relpath(os.path.abspath(a), V)} for a in sys.argv[1:]]
+for m in variants:
     tmp = tempfile.mkdtemp(prefix="benign.")
     try:
         repo = os.path.join(tmp, "repo")
